@@ -1,4 +1,5 @@
 import OV.Model.Index
+import OV.Drivers.Loop
 /-! Line-protocol driver for C11.  `C11 <graph|eager|numpy> <shape> <comp>*`
     shape: `3,4` (or `-` for rank 0);  comp: `F` | `I:<i>` | `S:<b>:<b>:<b>` (b = `_`|`c<i>`|`d<i>`) | `T:<i>` | `V:<i>,<i>…` (`V:` empty) -/
 namespace OV.Drivers.C11
@@ -87,3 +88,5 @@ def handle (args : List String) : String :=
   | _ => "bad-op"
 
 end OV.Drivers.C11
+
+def main : IO Unit := OV.Drivers.run OV.Drivers.C11.handle
